@@ -4,12 +4,12 @@ use cgmath::prelude::*;
 use cgmath::{Basis2, Basis3, Deg, Matrix2, Matrix3, Matrix4, Point2, Point3, Quaternion, Rad};
 use num_traits::Float;
 
-use crate::clause;
-use crate::conv::*;
-use crate::fw::{Case, Clause};
-use crate::gen::{self, Rng, Tier};
-use crate::model::*;
-use crate::sc::{Ck, Rat, Sc};
+use cgv_core::clause;
+use cgv_core::conv::*;
+use cgv_core::fw::{Case, Clause};
+use cgv_core::gen::{self, Rng, Tier};
+use cgv_core::model::*;
+use cgv_core::sc::{Ck, Rat, Sc};
 
 /// angle in the unit chosen by `unit` (0 = Rad, 1 = Deg), returned as
 /// (radian measure at S for the spec, code-side Rad, code-side Deg)
@@ -29,7 +29,7 @@ pub fn gen_angle(rng: &mut Rng, c: &mut Case) {
 }
 
 /// spec-side radian measure of the angle read from the case
-pub fn read_angle<S: Sc>(rd: &mut crate::fw::Rd) -> (S, S, bool) {
+pub fn read_angle<S: Sc>(rd: &mut cgv_core::fw::Rd) -> (S, S, bool) {
     let x: S = rd.x();
     let deg = rd.k() == 1;
     let t = if deg { (x * S::pi() / S::i(180)).widen(2) } else { x };
@@ -55,7 +55,7 @@ fn g_axis(rng: &mut Rng, tier: Tier) -> Case {
     c
 }
 
-fn read_axis<S: Sc>(rd: &mut crate::fw::Rd) -> V<S, 3> {
+fn read_axis<S: Sc>(rd: &mut cgv_core::fw::Rd) -> V<S, 3> {
     let a: V<S, 3> = rd.arr();
     if rd.k() == 1 {
         let n = Float::sqrt(vdot(a, a));
